@@ -18,7 +18,7 @@ LEVEL = "exploration"
 DESIGN_REF = "DESIGN.md section 3, C13"
 RULE = (
     "full product rows (1..4; 5,6,7,10,11,12 on a reduced position/axis set) x rotation-angle set x axis x position set x features on/off x path "
-    "(dataframe, parquet, csv x float_precision {None,2,4,6,8}, to_file/from_file x suffix {.csv,.parquet,.pq,.txt,none}); "
+    "(dataframe, parquet, csv x float_precision {None,2,4,6,8,10,12}, to_file/from_file x suffix {.csv,.parquet,.pq,.txt,none}); "
     "non-trivial = a non-identity orientation or a fractional position; distinct = distinct case tuples"
 )
 ASSUMPTIONS = [
@@ -30,7 +30,7 @@ ASSUMPTIONS = [
 ANGLES = [0.0, 1e-8, 1e-4, 1.0, np.pi - 1e-3, np.pi - 1e-6, np.pi]
 AXES_ = [(1.0, 0.0, 0.0), (1 / 3, 2 / 3, -2 / 3)]
 POSSETS = {"zero": [0.0, 0.0, 0.0], "small": [1e-3, -1e-3, 0.0], "frac": [123.456, -7.125, 0.5], "large": [1e4 + 0.25, 2048.0, -3333.75]}
-PATHS = ["dataframe", "parquet", "csv:None", "csv:2", "csv:4", "csv:6", "csv:8", "file:.csv", "file:.parquet", "file:.pq", "file:.txt", "file:",
+PATHS = ["dataframe", "parquet", "csv:None", "csv:2", "csv:4", "csv:6", "csv:8", "csv:10", "csv:12", "file:.csv", "file:.parquet", "file:.pq", "file:.txt", "file:",
          # file names with more dots than the one of the suffix, an upper-case suffix (not a Parquet suffix: text), a Path object
          "file:.v2.parquet", "file:_1.5nm.pq", "file:.parquet.csv", "file:.PQ", "file:.pq.bak", "pathobj:.parquet"]
 
@@ -135,7 +135,7 @@ def _table(case):
         feats = pl.DataFrame({
             "id": pl.Series(list(range(n)), dtype=pl.Int64),
             "score": pl.Series([0.125 * i - 0.3 for i in range(n)], dtype=pl.Float32),
-            "w": pl.Series([1e-7 * (i + 1) for i in range(n)], dtype=pl.Float64),
+            "w": pl.Series([1.23456789012345e-3 * (i + 1) for i in range(n)], dtype=pl.Float64),  # detail down to the 17th decimal
             "name": pl.Series([None if i == 1 else f"m{i}" for i in range(n)], dtype=pl.Utf8),
             "flag": pl.Series([None if i == 2 else bool(i % 2) for i in range(n)], dtype=pl.Boolean),
         })
@@ -234,7 +234,7 @@ def run_case(case):
                             if a != b or not same_dtype:
                                 viol.append((sig("features"), f"column {c}: {a} ({f1[c].dtype}) -> {b} ({f2[c].dtype})"))
                         else:
-                            ok = len(a) == len(b) and all((x is None and y is None) or (x is not None and y is not None and (x == y if not isinstance(x, float) else abs(x - y) <= (1e-7 * max(1.0, abs(x)) if exact else 0.5 * 10.0 ** (-prec) + 1e-7))) for x, y in zip(a, b))
+                            ok = len(a) == len(b) and all((x is None and y is None) or (x is not None and y is not None and (x == y if not isinstance(x, float) else abs(x - y) <= (1e-7 * max(1.0, abs(x)) if exact else 0.5 * 10.0 ** (-prec) + (1e-7 if f1[c].dtype == pl.Float32 else 1e-13)))) for x, y in zip(a, b))
                             if not ok:
                                 viol.append((sig("features"), f"column {c}: {a} -> {b} (precision {prec})"))
             elif m2.features.shape[1] != 0:
